@@ -122,6 +122,10 @@ func NewUpstreamReverseProxy(config *UpstreamConfig, signer *RequestSigner) (htt
 	// http.TimeoutHandler doesn't support flushing, so only create one if no flush interval is set.
 	if config.FlushInterval == 0 && config.Timeout != 0 {
 		handler = newTimeoutHandler(handler, config)
+		// http.TimeoutHandler replaces, rather than adds to, response headers that are already set:
+		// an upstream that sets a cookie of its own would otherwise displace the session cookie
+		// that the proxy has just re-issued (refreshed token, grace period start).
+		handler = keepPresetHeaders(handler)
 	}
 
 	// Sign the request if configured
@@ -220,10 +224,9 @@ func newSigningHandler(handler http.Handler, config *UpstreamConfig, signer *Req
 	})
 }
 
-// newTimeoutHandler creates a new TimeoutHandler middleware with a preconfigured message based on service name and timeout
 // keepPresetHeaders hands the wrapped handler a response writer that remembers the response headers
-// set before it was called and puts them back, ahead of whatever the handler added since, when the
-// final response header is written after one or more interim (1xx) responses.
+// set before it was called and, when the final response header is written, puts back ahead of
+// whatever the handler added those that the handler (or an interim response) displaced.
 func keepPresetHeaders(h http.Handler) http.Handler {
 	return http.HandlerFunc(func(rw http.ResponseWriter, req *http.Request) {
 		preset := make(http.Header, len(rw.Header()))
@@ -236,15 +239,11 @@ func keepPresetHeaders(h http.Handler) http.Handler {
 
 type presetHeaderWriter struct {
 	http.ResponseWriter
-	preset  http.Header
-	interim bool
+	preset http.Header
 }
 
 func (w *presetHeaderWriter) WriteHeader(code int) {
-	if code >= 100 && code <= 199 && code != http.StatusSwitchingProtocols {
-		w.interim = true
-	} else if w.interim {
-		w.interim = false
+	if code < 100 || code > 199 || code == http.StatusSwitchingProtocols {
 		header := w.ResponseWriter.Header()
 		for key, vals := range w.preset {
 			if !hasPrefixValues(header[key], vals) {
@@ -283,6 +282,7 @@ func (w *presetHeaderWriter) Hijack() (net.Conn, *bufio.ReadWriter, error) {
 	return nil, nil, errors.New("http.Hijacker is not available on writer")
 }
 
+// newTimeoutHandler creates a new TimeoutHandler middleware with a preconfigured message based on service name and timeout
 func newTimeoutHandler(handler http.Handler, config *UpstreamConfig) http.Handler {
 	timeoutMsg := fmt.Sprintf("%s failed to respond within the %s timeout period", config.Service, config.Timeout)
 	return http.TimeoutHandler(handler, config.Timeout, timeoutMsg)
